@@ -136,7 +136,7 @@ def param_space(ctx, rng, n: int) -> Iterator[Tuple[str, Callable]]:
     L = c13.lib()
     names = sorted(L["prims"])
 
-    def one(call, label):
+    def one(call, label, domain=None):
         def thunk():
             mname = f"Ps{next(_uid)}"
             m = h.Module(name=mname)
@@ -144,7 +144,7 @@ def param_space(ctx, rng, n: int) -> Iterator[Tuple[str, Callable]]:
             m.add(h.Instance(of=call)(**conns), name="x")
             m.literals.append(h.Literal("* a literal line"))
             m.literals.append(h.Literal(".include 'x y.sp'"))
-            return h.to_proto(m)
+            return h.to_proto(m, domain=domain) if domain is not None else h.to_proto(m)
 
         return label, thunk
 
@@ -174,6 +174,12 @@ def param_space(ctx, rng, n: int) -> Iterator[Tuple[str, Callable]]:
             params = {f"p{i}": rng.choice([c13.rand_int(rng), 1.5, "txt", h.Literal("w/2"), c13.rand_prefixed(rng), c13.rand_decimal(rng), None])
                       for i in range(3)}
             yield one(em(params), f"ExternalModule[{st.name}]({params})")
+    # external modules without a domain, in packages with and without one; packages with a domain
+    for dom in ("", "hvlib"):
+        for pdom in (None, "", "pkgdom", "hvlib"):
+            em = h.ExternalModule(name=f"Xd{len(dom)}", domain=dom, port_list=[h.Input(name="a"), h.Output(name="b", width=2), h.Inout(name="c")],
+                                  paramtype=dict)
+            yield one(em({"p": 1}), f"ExternalModule[domain={dom!r}] in package domain {pdom!r}", domain=pdom)
 
 
 def collision_designs(ctx, rng, n: int) -> Iterator[Tuple[str, Callable]]:
